@@ -40,6 +40,9 @@ CLAIMED = {
   "C18": ("symbolic execution (SYMX) of TableReaderBase.getValue/_findIndex over symbolic strictly increasing data and query point (every path of the bisect search) against a z3 If-oracle of the piecewise-linear specification; plotToFile family on uninterpreted functions with symbolic range; table-form data as opaque symbolic values through the real parser/builder/registry into a contract stub of scipy's spline; CrossHair (z3) on DatReader._populate over symbolic text",
           "legacy reader: value at data points, linear interpolant between, 0 outside, for all data/query values (1..4 points quick, 1..6 thorough); plot: exactly `steps` rows on the stated grid with y=f(x) for all ranges/functions; table forms: data reach the interpolant unchanged and in order, ext=1, x/y == xy, derivatives wired, no leakage from earlier models; DatReader: counterexample search only (not confirmed)",
           NOTE + "; FITPACK's interpolation is assumed as scipy's documented contract; the three DatReader conditions cannot be confirmed over all paths (float() of a symbolic string is realised) and are reported as inconclusive - they can only raise alarms", "3 C18"),
+  "C11": ("symbolic execution of the real _TabulationCutoff._init_cutoff on three number algebras: reals (all presence combinations, symbolic values of any sign -> z3 decides accept/reject and the derived value), reals with a fresh (1+e), |e|<=2^-53 factor per operation (sound for IEEE doubles: z3 shows nr == k+1 for every step > 0 and every multiple k <= 10^7), and z3 Float64/bit-vector terms (bit-precise search for decimal pairs m/10^4, k*m/10^4 that lose or gain a row, replayed through ConfigParser); factory defaults, dr/drho and the r/rho grids on symbolic cutoffs",
+          "combination logic and sign rejection for all values; row count k+1 for all commensurate (step, cutoff) under the rounding-error model; defaults 10.0/1001/100.0/1001; grid r_i = i*cutoff/(nr-1) ending at cutoff",
+          "the Float64 query is a witness search (unknown within its budget is reported inconclusive, 2 allowed); a single-row grid (n = 1) is treated as outside the property; overflow/underflow outside", "3 C11"),
   "C19": (SYMX % "GULP, ADP, funcfl and Excel writers",
           "same slot-level term comparison for the secondary targets (funcfl charge via a sqrt atom with Z>=0, Z^2*27.2*0.529 = r*phi)",
           NOTE + "; workbook cells read from the openpyxl object", "3 C19"),
